@@ -182,7 +182,9 @@ MODEL_FIELDS = ["body_mass", "body_inertia", "body_pos", "body_quat", "body_ipos
                 "geom_friction", "geom_solref", "geom_solimp", "geom_margin", "geom_gap", "actuator_gainprm", "actuator_biasprm",
                 "actuator_gear", "actuator_trnid", "site_pos", "site_bodyid", "tendon_stiffness", "tendon_damping", "tendon_lengthspring",
                 "jnt_solref", "jnt_solimp", "dof_solref", "dof_solimp", "eq_solref", "eq_solimp", "eq_data",
-                "sensor_type", "sensor_objtype", "sensor_objid", "sensor_reftype", "sensor_refid", "sensor_adr", "sensor_dim"]
+                "sensor_type", "sensor_objtype", "sensor_objid", "sensor_reftype", "sensor_refid", "sensor_adr", "sensor_dim",
+                "body_gravcomp", "jnt_actgravcomp", "jnt_actfrclimited", "jnt_actfrcrange", "actuator_ctrllimited", "actuator_ctrlrange",
+                "actuator_forcelimited", "actuator_forcerange"]
 
 
 def job_pipeline(j):
@@ -205,7 +207,7 @@ def job_pipeline(j):
                         ctrl=jp.asarray(np.array(s["ctrl"], F64)))
         f = fj(mx, d)
         n = sj(mx, d)
-        r = {k: lst(getattr(f, k)) for k in ("xpos", "xquat", "xipos", "qfrc_bias", "qfrc_passive", "qfrc_actuator", "qacc", "qacc_smooth", "qfrc_constraint", "ten_length", "sensordata")}
+        r = {k: lst(getattr(f, k)) for k in ("xpos", "xquat", "xipos", "qfrc_bias", "qfrc_passive", "qfrc_actuator", "qacc", "qacc_smooth", "qfrc_constraint", "ten_length", "sensordata", "actuator_force", "qfrc_gravcomp")}
         r["qM"] = lst(support.full_m(mx, f))
         c = f._impl.contact
         r["contact"] = {"dist": lst(c.dist), "pos": np.asarray(c.pos, F64).tolist(), "frame": np.asarray(c.frame, F64).reshape(-1, 9).tolist(),
